@@ -358,6 +358,7 @@ package gorums
 //@ monitor Correctable.mu guards reply level err done watchers watchers[]
 //@   invariant !this.done ==> this.donech != nil && !closed(this.donech)
 //@   invariant[C11.f] this.done ==> closed(this.donech)
+//@   invariant[C11.f] this.done ==> forall(i, 0, len(this.watchers), this.watchers[i] == nil || closed(this.watchers[i].ch))
 //@   invariant[C11.c] !this.done ==> forall(i, 0, len(this.watchers), this.watchers[i] == nil || \
 //@       (this.watchers[i].level > this.level && this.watchers[i].ch != nil && !closed(this.watchers[i].ch) && this.watchers[i].ch != this.donech))
 //@   invariant forall(i, 0, len(this.watchers), forall(j, 0, len(this.watchers), \
@@ -400,7 +401,8 @@ package gorums
 //@     after set lv = c.level
 //@     after set dn = c.done
 //@   ensures[C11.c] level <= lv ==> closed(result)
-//@   ensures[C11.c] level > lv ==> exists(i, 0, len(c.watchers), c.watchers[i] != nil && c.watchers[i].ch == result && c.watchers[i].level == level)
+//@   ensures[C11.f] dn ==> closed(result)
+//@   ensures[C11.c] level > lv && !dn ==> exists(i, 0, len(c.watchers), c.watchers[i] != nil && c.watchers[i].ch == result && c.watchers[i].level == level)
 
 //@ func (*Correctable).set
 //@   props C11
